@@ -285,6 +285,14 @@ def raw_element(k):
     e.append(c)
     if k % 2:
         e.setText("lead%d" % k)       # mixed content: text next to a child element
+    if k in (6, 7, 9):
+        # the caller marks a node of its own tree as nil through the element API
+        g = Element("gone")
+        g.setText("dropped")
+        e.append(g)
+        g.setnil()
+    if k == 6:
+        e.setnil(False)
     return e
 
 
@@ -378,7 +386,12 @@ def option_checks(ctx):
                                  got_info=_as_tree(info), has_raw=("raw" in kw or any(hasattr(h, "plain") for h in hv)))
                 # raw elements are carried intact
                 if "raw" in kw:
-                    want = trim_mixed(xmlread.infoset(xmlread.parse(raw_before)))
+                    try:
+                        want = trim_mixed(xmlread.infoset(xmlread.parse(raw_before)))
+                    except xmlread.XmlError as e:
+                        ctx.fail("the caller's element, built through the element API, is not namespace-well-formed",
+                                 {"form": form, "args": ai}, str(e), "every prefix declared in scope")
+                        continue
                     for key, (info, env) in results.items():
                         body = [c for c in info["children"] if c["name"][1] == "Body"][0]
                         rawnode = [c for c in body["children"][0]["children"] if c["name"][1] == want["name"][1]]
